@@ -180,6 +180,20 @@ pub fn c16(tier: &str, seed: u64) {
       stat("oracle.C16.joint_extremes");
     }
     // RELATED message and coins: equal strings, one a prefix of the other, coins all zero
+    // machine-size lengths (page multiples, powers of two) for the message, the coins, or both
+    let (m, r, t) = if !joint && !big && case_i % 5 == 2 {
+      stat("oracle.C16.page_sized_lengths");
+      let pmax = if quick(tier) { 32768 } else { 65536 };
+      let (ml, rl) = match g.below(4) {
+        0 => (crate::s_star::gen_page_len(&mut g, pmax), *g.pick(&[1usize, 32, 166])),
+        1 => (*g.pick(&[4096usize, 8192, 4096 * 3]), *g.pick(&[1usize, 32, 4096])),
+        2 => (*g.pick(&[0usize, 1, 32]), crate::s_star::gen_page_len(&mut g, pmax)),
+        _ => (crate::s_star::gen_page_len(&mut g, pmax), crate::s_star::gen_page_len(&mut g, pmax)),
+      };
+      (g.blob(ml), g.blob(rl), t.min(12))
+    } else {
+      (m, r, t)
+    };
     let (m, r) = match case_i % 11 {
       3 if !joint && !big => { stat("oracle.C16.coins_equal_message"); let v = if m.is_empty() { vec![7u8, 7] } else { m.clone() }; (v.clone(), v) }
       7 if !joint && !big => { stat("oracle.C16.coins_prefix_of_message"); let mut v = r.clone(); v.extend(&m); (v, r) }
